@@ -432,3 +432,54 @@ func zzH13_index_badtype() {
 	zzAssert(err != nil, "C13.slice.non_sequence_fails")
 	zzReach("end")
 }
+
+// ---- H13.1e: slicing and indexing a range ----
+
+// zzH13_slice_range: range(a, a+n*s, s)[lo:hi:st] denotes the elements
+// r[idx_k] of the CPython reference; r[i] = a + i*s. Bounds: n <= maxlen,
+// |a| <= 1000, 1 <= |s| <= 5, 1 <= |st| <= 5 (rangeLen divides by s*st), lo/hi
+// any int32 or None. (Overflowing ranges: C10.)
+//
+//verif:unwind 40
+func zzH13_slice_range() {
+	n := zzChoice("n", zzParam("maxlen_range", 3, 5)+1)
+	a := zzInt("a")
+	s := zzInt("s")
+	zzAssume(zzAnd(a >= -1000, a <= 1000))
+	zzAssume(zzAnd(zzAnd(s >= -5, s <= 5), s != 0))
+	r := rangeValue{start: a, stop: a + n*s, step: s, len: n}
+	lo := zzOpt("lo", 2)
+	hi := zzOpt("hi", 2)
+	st := zzOpt("step", 2)
+	if !st.none {
+		zzAssume(zzAnd(zzAnd(int64(st.w.lo) >= -5, int64(st.w.lo) <= 5), int64(st.w.lo) != 0))
+	}
+	got, err := slice(r, lo.v, hi.v, st.v)
+	zzAssert(err == nil, "C13.slice.int32_operands_accepted")
+	if err != nil {
+		return
+	}
+	g, ok := got.(rangeValue)
+	zzAssert(ok, "C13.slice.result_type")
+	idx, wantLen := zzPySlice(lo, hi, st, n)
+	zzObserve("len", g.len)
+	zzAssert(g.len == wantLen, "C13.slice.range_length")
+	okAll := true
+	for k := 0; k < n; k++ {
+		okAll = zzAnd(okAll, zzImplies(k < wantLen, int64(g.start)+int64(k)*int64(g.step) == int64(a)+idx[k]*int64(s)))
+	}
+	zzAssert(okAll, "C13.slice.range_elements")
+
+	// indexing
+	i := zzOptFrom("i", 1, 2)
+	iv := int64(i.w.lo)
+	valid := zzAnd(iv >= -int64(n), iv < int64(n))
+	e, err := getIndex(r, i.v)
+	zzAssert((err == nil) == valid, "C13.index.error_iff_out_of_range")
+	if err == nil {
+		ev, isInt := zzIntOf(e)
+		zzAssert(isInt, "C13.index.result_type")
+		zzAssert(ev == int64(a)+zzIteI64(iv < 0, iv+int64(n), iv)*int64(s), "C13.index.range_element")
+	}
+	zzReach("end")
+}
